@@ -594,6 +594,42 @@ func c05Panics(r *core.Run) {
 		}
 		c05TypedSetRule(r, o, mapFuncs)
 	})
+	r.Check("D4/K2/validated-before-set/typed-from-document", "a value taken from the document or the environment reaches a typed setter of lib/mapping (a function that parses a string into a named type such as time.Duration and stores it with reflect.Value.Set; it does not look at the field's options) only through the err == nil edge of validateValueInOptions: options= is enforced for duration fields too; a default= value is exempt", func(o *core.O) {
+		if !o.Need(len(mapFuncs) > 0, "package "+mapPkg) {
+			return
+		}
+		c05TypedValidatedRule(r, o, mapFuncs)
+	})
+	r.Check("D6/K5/shared-containers-stay-private", "a package-level map or slice of lib/mapping (shared by every unmarshal of the process) is only indexed, ranged over, measured or updated in place - never converted to an interface, stored, passed on or returned: handed out as a value it becomes part of a caller's struct (the shared empty map did, for absent map fields), and a write through that struct changes what later unmarshals produce", func(o *core.O) {
+		if !o.Need(len(mapFuncs) > 0, "package "+mapPkg) {
+			return
+		}
+		c05SharedContainersRule(r, o, mapFuncs)
+	})
+	r.Check("D8/K3/constant-index-within-length", "in lib/mapping a constant subscript s[k] / s[k:] of a list computed by an in-package function is reachable only after a test establishing that the list is long enough (a blank struct tag yields no segments at all: indexing panics instead of returning an error)", func(o *core.O) {
+		if !o.Need(len(mapFuncs) > 0, "package "+mapPkg) {
+			return
+		}
+		c05ConstIndexRule(r, o, mapFuncs)
+	})
+	r.Check("D6/K5/memo-key-covers-value", "a value memoised in a package-level map of lib/mapping is stored under a key that depends on everything that decides how the value is computed: where a branch (other than on the lookup's own outcome) selects between differently computed values, the key depends on the operand of that branch (the parsed form of a default= text depends on the element kind as well as on the text)", func(o *core.O) {
+		if !o.Need(len(mapFuncs) > 0, "package "+mapPkg) {
+			return
+		}
+		c05MemoKeyRule(r, o, mapFuncs)
+	})
+	r.Check("D3/K2/null-accepted-only-when-optional", "a null document value is accepted without setting the field only for an optional field: in the functions of lib/mapping that test the document value against nil, a nil error is returned from the null arm only through the true edge of optional() (a required field given null fails)", func(o *core.O) {
+		if !o.Need(len(mapFuncs) > 0, "package "+mapPkg) {
+			return
+		}
+		c05NullRule(r, o, mapFuncs)
+	})
+	r.Check("D6/K1/fresh-target-per-element", "while lib/mapping fills a map or slice element by element, the reflect.New target that is stored as (or into) the element is allocated inside the loop, once per element (a hoisted target makes all pointer elements alias one object and lets a value element inherit an earlier entry's fields)", func(o *core.O) {
+		if !o.Need(len(mapFuncs) > 0, "package "+mapPkg) {
+			return
+		}
+		c05FreshTargetRule(r, o, mapFuncs)
+	})
 	r.Check("D9/K1/pointer-field-allocated-before-deref", "where a function of lib/mapping that receives a field as (fieldType reflect.Type, value reflect.Value) takes value.Elem() under fieldType.Kind()==Pointer and uses the result, value has passed the allocation step - a call of an allocator (by role: cannot return without value.Set(reflect.New(…)) unless value.IsNil() is false or a Kind()==Pointer test failed), a direct Set(reflect.New(…)) or the false edge of IsNil() - in the function or, following the value up through callers that pass their own parameter on, at every in-package call site; a hand-over inside a type-switch case of the document value is followed only into callers that can supply a document value of that dynamic type", func(o *core.O) {
 		if !o.Need(len(mapFuncs) > 0, "package "+mapPkg) {
 			return
